@@ -67,8 +67,8 @@ def run_small(ctx, pt):
         ctx.eq(K + 'hex', b.hex(), by.hex().encode())
         ctx.eq(K + 'pack-le', pack(b), x.to_bytes((n + 7) // 8, 'little'))
         ctx.eq(K + 'pack-le-explicit', pack(b, '<L'), x.to_bytes((n + 7) // 8, 'little'))
+        ctx.eq(K + 'pack-be', pack(b, '>L'), x.to_bytes((n + 7) // 8, 'big'))       # the big-endian encoding of the integer, any size
         if n % 8 == 0:
-            ctx.eq(K + 'pack-be', pack(b, '>L'), x.to_bytes(n // 8, 'big'))
             if n:
                 for fmt in ('<L', '>L'):
                     r = ctx.attempt(lambda: val(Bits(*unpack(pack(b, fmt), bigend=(fmt == '>L')))))
@@ -206,8 +206,8 @@ def run_wide(ctx, pt):
         ctx.eq(K + 'bitlist-roundtrip', val(Bits(b.bitlist())), mval(n, x))
         ctx.eq(K + 'str-roundtrip', val(Bits([int(ch) for ch in str(b)])), mval(n, x))
         ctx.eq(K + 'bit', (b.bit(0), b.bit(n - 1), b.bit(-1), b.bit(-n)), (bl[0], bl[-1], bl[-1], bl[0]))
+        ctx.eq(K + 'pack-be', pack(b, '>L'), x.to_bytes((n + 7) // 8, 'big'))
         if n % 8 == 0:
-            ctx.eq(K + 'pack-be', pack(b, '>L'), x.to_bytes(n // 8, 'big'))
             for fmt in ('<L', '>L'):
                 r = ctx.attempt(lambda: val(Bits(*unpack(pack(b, fmt), bigend=(fmt == '>L')))))
                 ctx.eq(K + 'unpack-pack-roundtrip', r, ('ok', mval(n, x)))
